@@ -5,7 +5,8 @@ A mutant is (name, kind, relpath, old, new, expected_rules):
   kind 'mutant' -> the run must report at least one violation of one of expected_rules
   kind 'twin'   -> the run must report no violation and no analysis error
 `old` must occur exactly once in the file, otherwise the case is recorded as "skipped: anchor absent"
-(on an edited tree that is legitimate).  Special form: old == "@revert:<commit>" replaces the file by
+(on an edited tree that is legitimate).  Special forms: old == "@patch:<diff under /verif>" applies a kept seeded change;
+old == "@revert:<commit>" replaces the file by
 its content at that commit of /repo's history (used to re-introduce repaired defects).
 """
 
@@ -39,7 +40,14 @@ def _run_case(args):
         if not target.exists():
             return {"name": name, "kind": kind, "status": "skipped: anchor absent (file)"}
         src = target.read_text()
-        if old.startswith("@revert:"):
+        if old.startswith("@patch:"):
+            # a kept seeded change (unified diff relative to the repo root) as a mutant
+            pf = VERIF / old.split(":", 1)[1]
+            r = subprocess.run(f"patch -p1 -s --no-backup-if-mismatch < {pf}", shell=True, cwd=tmp, capture_output=True, text=True)
+            if r.returncode != 0:
+                return {"name": name, "kind": kind, "status": "skipped: anchor absent (patch does not apply)"}
+            out = target.read_text()
+        elif old.startswith("@revert:"):
             commit = old.split(":", 1)[1]
             r = subprocess.run(["git", "-C", repo_root, "show", f"{commit}:{rel}"], capture_output=True, text=True)
             if r.returncode != 0:
